@@ -28,17 +28,25 @@ RULE = ("Alphabet: 33 plain line kinds + 19 hostile-text twins (same keyword / c
         "(both tiers) and, thorough, ALL sequences of exactly 4 lines over the 33 plain kinds (hostile kinds differ "
         "from their twins in text only) per entry point, which also checks that (abstract state, line kind) determines (next "
         "abstract state, outcome class) and that no abstract state or violation class exists that the search did not "
-        "find. E3: every single-line mutation (insert each of the 52 line kinds at each position, delete, duplicate, "
+        "find. E3: every single-line mutation (insert each of the 33 plain (quick) / all 52 (thorough) line kinds at each "
+        "position, delete, duplicate, "
         "swap adjacent, 3 truncations per line) of rendered valid documents (every 20th of all feature shapes with "
         "<= 4 blocks in quick, all of them in thorough, plus step/scenario/rule/tag texts), and 9 catalogued fault "
         "kinds (second Feature, text after steps, Examples outside an outline, And/But without predecessor, row with "
         "one cell too many/few, malformed tag token, second Background, Background after a Scenario, table/doc-string "
-        "before any step) inserted at every position where the reference acceptor calls them a fault (there: "
+        "before any step, doc-string content indented less than the opening quotes) inserted at every position where the reference acceptor calls them a fault (there: "
         "ParserError with .line == injected line); every such fault additionally with each of the 7 hostile atoms "
         "('{name}', '{}', '{', '}', '%s', '%(x)s', '%') placed in the faulty line and, separately, in the line before "
-        "it. The malformed tag line is also checked inside both searches (a ParserError raised for it must carry "
+        "it (quick: the atoms rotate over the positions, every fault kind meets every atom in both placements; "
+        "thorough: every atom at every position). The malformed tag line is also checked inside both searches (a ParserError raised for it must carry "
         "its own line number, whatever blank / comment lines precede it) and at every position of multi-line tag texts "
-        "with blank and comment-only lines through parse_tags. A raised ParserError must also be printable (str()). Invariant everywhere: model/None or ParserError with 1 <= line <= number of lines, "
+        "with blank and comment-only lines through parse_tags. A raised ParserError must also be printable (str()). Parser reuse (what Context.execute_steps does): ALL "
+        "sequences of <= 2 (quick) / <= 3 (thorough) calls of parse / parse_steps / parse_scenario / parse_rule / "
+        "parse_tags on ONE Parser object over 26 (method, text) operations (valid Given/When/Then texts, texts "
+        "starting with And / But / *, texts that raise mid-document, a doc-string left open, a table / tags / Examples "
+        "pending at the end, a '# language: de' feature); every call must give the same model or the same exception "
+        "class and line as on a fresh Parser with the same language and variant, and must not modify a model "
+        "returned earlier. Invariant everywhere: model/None or ParserError with 1 <= line <= number of lines, "
         "never another exception, at most one action call per line and pass. A history is non-trivial (counted "
         "distinct by (entry, abstract state, line kind)) when the line changes the abstract state or raises; a "
         "mutation is non-trivial when it changes the outcome of the document (counted by fault kind / mutation kind "
@@ -230,13 +238,15 @@ FAULT_LINES = {
 }
 
 
-def contexts(ann):
+def contexts(ann, lines=None):
     """Reference acceptor, part 1: the grammatical context *before* every base line (and after the last one),
     computed from the renderer's annotations of the valid document - not from behave."""
     c = {"in_doc": False, "zone": "initial", "feature": False, "stmt": None, "steps": 0, "table": None,
          "level": "feature", "fbg": False, "rbg": False, "scen": False}
     out = [dict(c)]
-    for kind, info in ann:
+    for i, (kind, info) in enumerate(ann):
+        if kind == "doc_open" and lines is not None:
+            c["doc_col"] = len(lines[i]) - len(lines[i].lstrip())
         if kind == "tag":
             c["zone"] = "tags"
         elif kind == "feature":
@@ -273,6 +283,9 @@ def faults_at(c):
     Only definite faults are listed; positions where the documented grammar reads the line as free-form
     description text (zone 'desc') are left unspecified."""
     if c["in_doc"]:
+        # inside a doc-string everything is content, except text that starts left of the opening quotes
+        if c.get("doc_col", 0) >= 1:
+            return [("docstring-less-indent", u" " * (c["doc_col"] - 1) + u"x is indented less than the quotes")]
         return []
     z, stmt = c["zone"], c["stmt"]
     f = []
@@ -341,22 +354,26 @@ def _source(spec):
     raise ValueError(spec)
 
 
-def _mutations(entry, lines, ann):
+def _mutations(entry, lines, ann, nk=NK):
     """yields (mutation, new lines, fault name or None, expected error line or None, zone)"""
     L = len(lines)
-    ctxs = contexts(ann) if ann is not None else None
+    ctxs = contexts(ann, lines) if ann is not None else None
     for p in range(L + 1):
         zone = (ctxs[p]["zone"] if not ctxs[p]["in_doc"] else "doc") if ctxs else "-"
-        for k in range(NK):
+        for k in range(nk):
             yield ("ins", p, k), lines[:p] + [ps.KINDS[k]] + lines[p:], None, None, zone
         if ctxs:
             for name, text in faults_at(ctxs[p]):
                 yield ("fault", p, name), lines[:p] + [text] + lines[p:], name, p + 1, zone
-                for atom in ps.HOSTILE_ATOMS:
-                    yield (("fault", p, name, atom, "line"), lines[:p] + [_hostile_line(text, atom)] + lines[p:],
-                           name, p + 1, zone)
+                na = len(ps.HOSTILE_ATOMS)
+                for ia, atom in enumerate(ps.HOSTILE_ATOMS):
+                    # quick (nk < NK): the atoms rotate over the positions (every fault kind still meets every atom
+                    # in both placements - guarded); thorough: every atom at every position
+                    if nk == NK or ia == p % na:
+                        yield (("fault", p, name, atom, "line"), lines[:p] + [_hostile_line(text, atom)] + lines[p:],
+                               name, p + 1, zone)
                     prev = _hostile_prev(lines[p - 1], ann[p - 1][0], atom) if p >= 1 else None
-                    if prev is not None:
+                    if prev is not None and (nk == NK or ia == (p + 3) % na):
                         yield (("fault", p, name, atom, "prev"), lines[:p - 1] + [prev, text] + lines[p:],
                                name, p + 1, zone)
     if entry == "tags":
@@ -403,7 +420,7 @@ def mutate_doc(case):
     """("doc", spec[, part, nparts]): all single-line mutations of one valid document (those at positions
     p % nparts == part); ("mut", spec, mutation): replay form"""
     spec = case[1]
-    part, nparts = (case[2], case[3]) if case[0] == "doc" and len(case) == 4 else (0, 1)
+    part, nparts = (case[2], case[3]) if case[0] == "doc" and len(case) >= 4 else (0, 1)
     entry, lines, ann = _source(spec)
     base_text = u"\n".join(lines) + u"\n"
     base_out, _, _, calls, _ = ps.run_text(entry, base_text)
@@ -420,7 +437,8 @@ def mutate_doc(case):
     nts = set()
     obs = []
     n = 0
-    for mut, new_lines, fault, want_line, zone in _mutations(entry, lines, ann):
+    nk = case[4] if case[0] == "doc" and len(case) > 4 else NK
+    for mut, new_lines, fault, want_line, zone in _mutations(entry, lines, ann, nk):
         if only is not None and mut != only:
             continue
         if mut[1] % nparts != part:
@@ -444,7 +462,7 @@ def mutate_doc(case):
         r = {"out": oc, "n": cnt, "case": case}
         if first:
             r["dg"] = digest(obs)
-            r["keep"] = sorted(set((k[2],) + tuple(k[4:5]) for k in nts if k[0] == "fault"))
+            r["keep"] = sorted(set((k[2],) + tuple(k[4:6]) for k in nts if k[0] == "fault"))
             first = False
         res.append(r)
     for key in nts:
@@ -466,12 +484,13 @@ def e3_sources(quick):
     else:
         picked = shapes
     nparts = 4
+    nk = ps.PLAIN_NK if quick else NK       # quick inserts the plain kinds only (hostile text: fault part + searches)
     for i, sh in enumerate(picked):
         for part in range(nparts):
-            yield ("doc", ("feature", sh, i * 13), part, nparts)
+            yield ("doc", ("feature", sh, i * 13), part, nparts, nk)
     for seed in (1, 2):
         for part in range(2 * nparts):
-            yield ("doc", ("feature", RICH, seed), part, 2 * nparts)
+            yield ("doc", ("feature", RICH, seed), part, 2 * nparts, nk)
     args = gr.step_args()
     blocks = [[("given", u"1st step", None), ("and", u"2 things <x>", args[1]), ("then", u"3rd step, longer text", args[-1])],
               [("star", u"1st step", args[-3]), ("but", u"2 things <x>", args[2]), ("when", u"3rd step, longer text", None)]]
@@ -489,6 +508,119 @@ def e3_sources(quick):
     yield ("doc", ("tags", [u"@t1 @t2", u"", u"# comment-only line", u"@t3  # trailing comment", u"   ", u"    # indented",
                             u"@t4", u""]))
     yield ("doc", ("tags", [u"", u"# c", u"@t1"]))
+
+
+# ================================================================ histories of parse calls on ONE Parser object
+# Context.execute_steps() calls feature.parser.parse_steps() again and again on the parser that parsed the feature.
+# Differential oracle: every call on a used parser must behave exactly like the same call on a fresh Parser that
+# is configured alike (same language, same variant): same model or same exception class and line.
+_DQ = u'"' * 3
+REUSE_OPS = (
+    ("parse", u"Feature: F\n  Scenario: S\n    Given g\n    When w\n    Then t\n"),
+    ("parse", u"Feature: F\n  Background: B\n    Given g\n  Scenario: S\n    And a\n    * s\n"),
+    ("parse", u"Feature: F\n  Scenario: S\n    And a\n"),
+    ("parse", u"Feature: F\n  Scenario: S\n    * s\n    But b\n"),
+    ("parse", u"Feature: F\n  Scenario: S\n    Then t\n    free text\n    Given g\n"),
+    ("parse", u"Feature: F\n  Scenario: S\n    When w\n      " + _DQ + u"\n      left open\n"),
+    ("parse", u"Feature: F\n  Scenario Outline: O\n    Then t\n    @t1\n    Examples: E\n      | a |\n"),
+    ("parse", u"Feature: F\n  Rule: R\n    Background: B\n      When w\n    @t1 @t2\n"),
+    ("parse", u"# language: de\nFunktionalit\xe4t: F\n  Szenario: S\n    Wenn w\n"),
+    ("parse", u"@t1\n"),
+    ("parse_steps", u"Given g\nWhen w\nThen t\n"),
+    ("parse_steps", u"And a\n"),
+    ("parse_steps", u"But b\n"),
+    ("parse_steps", u"* s\nAnd a\n"),
+    ("parse_steps", u"Then t\nfree text\n"),
+    ("parse_steps", u"When w\n  " + _DQ + u"\n  left open\n"),
+    ("parse_steps", u"Given g\n  | a |\n  | b |\n"),
+    ("parse_steps", u"Wenn w\n"),
+    ("parse_steps", u""),
+    ("parse_scenario", u"Scenario: S\n  Given g\n  Then t\n"),
+    ("parse_scenario", u"Scenario: S\n  And a\n"),
+    ("parse_scenario", u"@t1\nScenario: S\n  * s\n  But b\n"),
+    ("parse_rule", u"Rule: R\n  Background:\n    When w\n  Scenario: S\n    And a\n"),
+    ("parse_rule", u"Rule: R\n  Scenario: S\n    But b\n"),
+    ("parse_tags", u"@a @b"),
+    ("parse_tags", u"@a b"),
+)
+_VARIANT = {"parse": "feature", "parse_steps": "steps", "parse_scenario": "scenario", "parse_rule": "rule", "parse_tags": "tags"}
+
+
+def _call(parser, method, text):
+    """-> outcome: ("ok", extracted model) | ("PE", line) | ("EXC", class, site)"""
+    P = ps.install()
+    parser.variant = _VARIANT[method]       # what Context.execute_steps() does before parser.parse_steps()
+    try:
+        res = getattr(parser, method)(text)
+    except P["ParserError"] as e:
+        return ("PE", None if method == "parse_tags" else e.line), None
+    except Exception as e:
+        return ("EXC", type(e).__name__, ps.exc_site(e)), None
+    return ("ok", _extract(method, res)), res
+
+
+def _extract(method, res):
+    m = ps.install()["model"]
+    if res is None:
+        return None
+    if method == "parse" and isinstance(res, m.Feature):
+        return gr.x_feature(res)
+    if method == "parse_steps":
+        return [gr.x_step(x) for x in res]
+    if method == "parse_scenario" and isinstance(res, m.Scenario):
+        return gr.x_scenario(res)
+    if method == "parse_rule" and isinstance(res, m.Rule):
+        return gr.x_rule(res)
+    if method == "parse_tags":
+        return [u"%s" % t for t in res]     # Parser.parse_tags(line) is the per-line helper: no line of its own
+    return "a %s object" % type(res).__name__
+
+
+def reuse_case(seq):
+    """seq = indexes into REUSE_OPS: the calls are made one after the other on the same Parser object"""
+    Parser = ps.install()["bp"].Parser
+    used = Parser()
+    v = []
+    obs = []
+    kept = []
+    for i, k in enumerate(seq):
+        method, text = REUSE_OPS[k]
+        fresh = Parser(language=used.language)
+        want, _ = _call(fresh, method, text)
+        got, res = _call(used, method, text)
+        obs.append((want[0], got[0], got == want))
+        kept.append((method, res, got))
+        if got != want and i > 0:
+            v.append(({"subcheck": "parser-reuse", "clause": "differs-from-fresh-parser", "method": method},
+                      "call #%d %s(%r) on a Parser that already made the calls %r gives %r, a fresh Parser gives %r"
+                      % (i + 1, method, text, [REUSE_OPS[j] for j in seq[:i]], _brief(got), _brief(want))))
+        elif got != want:
+            v.append(({"subcheck": "parser-reuse", "clause": "harness-first-call-differs", "method": method},
+                      "%s(%r): %r vs %r" % (method, text, _brief(got), _brief(want))))
+    for method, res, got in kept[:-1]:
+        if got[0] == "ok" and ("ok", _extract(method, res)) != got:
+            v.append(({"subcheck": "parser-reuse", "clause": "later-call-changed-earlier-model", "method": method},
+                      "the model returned by %s was modified by a later call in %r" % (method, [REUSE_OPS[j] for j in seq])))
+    nt = tuple(seq) if len(seq) > 1 and obs[0][0] != "ok" or len(seq) > 1 and any(o[0] != "ok" for o in obs[1:]) else None
+    return {"v": v, "nt": ("reuse",) + tuple(seq) if nt else None, "dg": obs, "n": len(seq),
+            "out": ("reuse",) + tuple((REUSE_OPS[k][0], o[1]) for k, o in zip(seq[-2:], obs[-2:])),
+            "st": {"transitions": len(seq), "traces": 1}}
+
+
+def _brief(out):
+    if out[0] != "ok":
+        return out
+    return ("ok", digest(out[1]), _types(out[1]))
+
+
+def _types(x):
+    if isinstance(x, dict):
+        if x.get("kind") == "step":
+            return (x["keyword"], x["type"])
+        return [_types(v) for v in x.values() if isinstance(v, (dict, list))]
+    if isinstance(x, list):
+        return [_types(v) for v in x]
+    return None
 
 
 # ================================================================ driver
@@ -545,13 +677,23 @@ def run(ctx):
         hidden = [dict(k) for k in enum_classes - b["vclasses"]]
         ctx.guard(not hidden, "every violation class of the no-dedup enumeration of %s is also found by the search (%r)"
                   % (entry, hidden[:2]))
+    # ---- histories of calls on one Parser object
+    import itertools
+    depth = 2 if ctx.quick else 3
+    ctx.bounds["parser_reuse"] = "all sequences of <= %d calls over %d (method, text) operations on one Parser" % (depth, len(REUSE_OPS))
+    for n in range(1, depth + 1):
+        ctx.sweep(reuse_case, itertools.product(range(len(REUSE_OPS)), repeat=n), chunk=64,
+                  name="%d parse call(s) on one Parser object" % n)
     # ---- E3
     kept = ctx.sweep(mutate_doc, e3_sources(ctx.quick), chunk=1, name="single-line mutations of valid documents", keep=True)
     seen = set(tuple(x) for lst in kept for x in lst)
     seen_faults = set(x[0] for x in seen)
-    missing_atoms = [(f, a) for f in sorted(seen_faults) for a in ps.HOSTILE_ATOMS if (f, a) not in seen]
-    ctx.guard(not missing_atoms, "every catalogued fault kind is also injected with every hostile atom (missing: %r)" % (missing_atoms[:3],))
-    want = set(FAULT_LINES) | {"row-one-cell-too-many", "row-one-cell-too-few", "table-before-step", "docstring-before-step"}
+    missing_atoms = [(f, a, w) for f in sorted(seen_faults) for a in ps.HOSTILE_ATOMS for w in ("line", "prev")
+                     if (f, a, w) not in seen and not (w == "prev" and f in ("table-before-step", "docstring-before-step",
+                                                                              "docstring-less-indent"))]
+    ctx.guard(not missing_atoms, "every catalogued fault kind is also injected with every hostile atom, in the faulty line and in the line before it (missing: %r)" % (missing_atoms[:3],))
+    want = set(FAULT_LINES) | {"row-one-cell-too-many", "row-one-cell-too-few", "table-before-step", "docstring-before-step",
+                               "docstring-less-indent"}
     ctx.guard(seen_faults >= want, "every catalogued fault kind is injected at least once (missing: %s)"
               % sorted(want - seen_faults))
     ctx.note("fault_kinds_injected", sorted(seen_faults))
